@@ -104,6 +104,17 @@ def install_value_model(E, ctx):
         raise Unsupported('type(%r)' % (a,))
     B_['type'] = VStub('type', _type)
 
+    text_of = z3.Function('str()_of_a_non_string', ValS, S)
+
+    def _str(E_, v):
+        """str(x): x itself (same text) for a string, some text for anything else -- a different value, a string"""
+        if isinstance(v, VVal) and v.t.sort() == ValS:
+            if E.branch(is_str(v.t)):
+                return mkstr(E, str_of(v.t))
+            return mkstr(E, text_of(v.t))
+        return None
+    B_['__str__'] = _str
+
     def _type_cmp(E_, a, b):
         for x, y in ((a, b), (b, a)):
             if isinstance(x, Obj) and x.cls == 'type_of':
@@ -673,15 +684,28 @@ def t_exhaust(E):
         ml = k.get('maxlen', a[1] if len(a) > 1 else None)
         it = a[0]
         if isinstance(it, Obj) and it.cls == 'Iter':
+            source_may_raise()
             it.fields['pulled_all'] = True
             st['maxlen'] = ml.concrete() if isinstance(ml, VInt) else None
         return Obj('deque')
+
+    def source_may_raise():
+        """pulling the argument runs the caller's code (a generator body, a mapped function): it may raise anything,
+        at any element"""
+        if E.choose([('runs_dry', None), ('raises', None)], 'pulling the argument') == 'raises':
+            c = E.fresh('source_exc', ClsS)
+            E.need_hierarchy()
+            E.assume(sub(c, EXC['BaseException'].term))
+            ex = VExc(c, (), info={'origin': 'the-iterable'})
+            st['src_exc'] = ex
+            raise PyExc(ex)
 
     def _short_circuit(name):
         def fn_(E_, a, k):
             """any()/all(): stops pulling at the first truthy/falsy element"""
             it_ = a[0]
             if isinstance(it_, Obj) and it_.cls == 'Iter':
+                source_may_raise()
                 it_.fields['pulled_all'] = E.fresh('no_%s_element_before_the_end' % ('truthy' if name == 'any' else 'falsy'), B)
                 st['maxlen'] = 0
                 return VBool(E.fresh(name, B))
@@ -706,7 +730,15 @@ def t_exhaust(E):
         it = mk_iter(E.fresh('X', VS))
         E.cover(f.qualname + '/requires')
         E.canary(f.qualname + '/canary@entry')
-        r = E.run_function(f, [it], {})
+        try:
+            r = E.run_function(f, [it], {})
+        except PyExc as pe:
+            E.oblige(f.qualname + '/signals.raises_only_what_pulling_the_argument_raised',
+                     z3.BoolVal(pe.exc is st.get('src_exc')), detail='origin: %s' % pe.exc.info.get('origin'))
+            return
+        E.oblige(f.qualname + '/signals.a_failure_while_pulling_propagates', z3.BoolVal(st.get('src_exc') is None),
+                 detail='returning None says "the whole argument was consumed": an exception raised by the iterable at '
+                        'some element must not be swallowed (whatever its class)')
         pa = it.fields.get('pulled_all')
         E.oblige(f.qualname + '/ensures.whole_argument_consumed',
                  pa if isinstance(pa, z3.BoolRef) else z3.BoolVal(pa is True))
